@@ -117,6 +117,19 @@ def check_resolution(case, ctx):
     ex = run(build(spec).root.explain, o)
     if not ex.ok and ev.ok:
         raise Violation("explain-fails", f"Option {node} on {o}: evaluate ok but explain {ex!r}")
+    # one long-lived Option object evaluated on further dictionaries: each outcome depends on that dictionary alone
+    same = build(spec).root
+    run(same.evaluate, o)
+    for o_more in case.get("more", []):
+        if "scalar-section-walk" in Ref(spec).run(o_more).labels or any(is_scalar_section(o_more, k) for k in mentioned) \
+                or uses_scalar_section(spec["root"], o_more):
+            continue
+        r2 = Ref(spec).run(o_more)
+        e2 = run(same.evaluate, o_more)
+        if e2.ok != r2.ok or (r2.ok and e2.value != r2.value):
+            rel = "domain-violation-returned" if (not r2.ok and ("domain",) in r2.fails and e2.ok) else "depends-on-earlier-evaluation"
+            raise Violation(rel, f"Option {node} evaluated on {o} and then, same object, on {o_more}: got {e2!r} but expected {r2!r}")
+        labels.add("same-object-reused")
     key = node["key"]
     raw = U.dotted_get(o, key)
     if raw is not U.ABSENT and (raw is None or raw is False or raw == 0 or raw == "" or raw == [] or raw == {}):
@@ -143,7 +156,21 @@ def resolution_cases(draw, scalar_sections=True):
     if draw(st.integers(0, 3)) == 0:
         node["default"] = {"t": "node", "n": {"k": "opt", "key": draw(st.sampled_from(KEYS)),
                                               "default": {"t": "node", "n": g.leaf()}}}
-    return {"option": node, "defs": g.defs, "options": draw(rich_dicts(scalar_sections))}
+    if "domain" in node and node["domain"]["t"] == "step" and draw(st.booleans()):
+        # an evaluatable domain that has a default of its own
+        node["domain"]["arg"] = {"k": "opt", "key": draw(st.sampled_from(["B", "T", "L"])), "default": {"t": "const", "v": draw(st.sampled_from([[1, "a", None], 1, "a"]))}}
+    o = draw(rich_dicts(scalar_sections))
+    more = []
+    for _ in range(draw(st.integers(0, 2))):
+        o2, _ = draw(U.edit_dict(more[-1] if more else o, allow_unmentioned=False, focus=[node["key"], "B", "T", "L"]))
+        more.append(o2)
+    dom = node.get("domain") or {}
+    if dom.get("t") == "step" and "default" in dom.get("arg", {}) and draw(st.integers(0, 3)) > 0:
+        # first the domain's own option is absent (its default applies), then it is supplied with another value
+        akey = dom["arg"]["key"]
+        o = U.dotted_del(o, akey)
+        more = [U.dotted_set(o, akey, draw(st.sampled_from([[2, "b"], [], 2, "b", [1, "a", None]])))] + more[:1]
+    return {"option": node, "defs": g.defs, "options": o, "more": more}
 
 
 # ---- namespaces -----------------------------------------------------------------------------------------------
